@@ -19,6 +19,7 @@ from typing import TYPE_CHECKING
 from typing import Any
 from typing import cast
 
+from chameleon._verif import point as _verif_point
 from chameleon.utils import encode_string
 
 
@@ -50,8 +51,11 @@ log = logging.getLogger('chameleon.loader')
 def cache(func: _F) -> _F:
     def load(self: Any, *args: Any, **kwargs: Any) -> Any:
         template = self.registry.get(args)
+        _verif_point("load.lookup", found=template is not None)
         if template is None:
+            _verif_point("load.construct")
             self.registry[args] = template = func(self, *args, **kwargs)
+            _verif_point("load.registered")
         return template
     return cast('_F', load)
 
@@ -180,7 +184,9 @@ class ModuleLoader:
 
     def get(self, filename: str) -> dict[str, Any] | None:
         path = os.path.join(self.path, filename)
+        _verif_point("get.lookup", filename=filename)
         if os.path.exists(path):
+            _verif_point("get.hit", filename=filename)
             log.debug("loading module from cache: %s." % filename)
             base, ext = os.path.splitext(filename)
             return self._load(base, path)
@@ -195,8 +201,10 @@ class ModuleLoader:
             name = os.path.join(self.path, base + ".py")
 
             log.debug("writing source to disk (%d bytes)." % len(source))
+            _verif_point("build.locked", filename=filename)
             fd, fn = tempfile.mkstemp(
                 prefix=base, suffix='.tmp', dir=self.path)
+            _verif_point("build.mkstemp", filename=filename, temp=fn)
             temp = os.fdopen(fd, 'wb')
             encoded = source.encode('utf-8')
             header = encode_string("# -*- coding: utf-8 -*-" + "\n")
@@ -204,16 +212,21 @@ class ModuleLoader:
             try:
                 try:
                     temp.write(header)
+                    _verif_point("build.header", filename=filename, temp=temp)
                     temp.write(encoded)
+                    _verif_point("build.body", filename=filename, temp=temp)
                 finally:
                     temp.close()
+                _verif_point("build.closed", filename=filename)
             except BaseException:
                 os.remove(fn)
                 raise
 
             os.rename(fn, name)
+            _verif_point("build.renamed", filename=filename)
             log.debug("compiling %s into byte-code..." % filename)
             py_compile.compile(name)
+            _verif_point("build.compiled", filename=filename)
 
             return self._load(base, name)
         finally:
@@ -223,6 +236,7 @@ class ModuleLoader:
         acquire_lock()
         try:
             module = sys.modules.get(base)
+            _verif_point("modload.lookup", base=base, found=module is not None)
             if module is None:
                 loader = SourceFileLoader(base, filename)
                 spec = spec_from_loader(base, loader)
@@ -230,7 +244,9 @@ class ModuleLoader:
                     raise ModuleNotFoundError(f"{base} ({filename})")
                 module = module_from_spec(spec)
                 loader.exec_module(module)
+                _verif_point("modload.exec", base=base)
                 sys.modules[base] = module
+                _verif_point("modload.registered", base=base)
         finally:
             release_lock()
 
